@@ -1,6 +1,7 @@
 package main
 
 import (
+	"encoding/json"
 	"flag"
 	"fmt"
 	"os"
@@ -37,7 +38,17 @@ func main() {
 	verif := flag.String("verif", "/verif", "verif directory (evidence, known findings)")
 	only := flag.String("only", "", "only report the obligation with this key (replay)")
 	list := flag.Bool("list", false, "list all obligations")
+	describe := flag.Bool("describe", false, "print the registered properties as JSON and exit")
 	flag.Parse()
+	if *describe {
+		out := map[string]interface{}{}
+		for id, p := range props {
+			out[id] = map[string]interface{}{"explanation": p.explanation, "not_decided": p.notDecided}
+		}
+		b, _ := json.MarshalIndent(out, "", " ")
+		fmt.Println(string(b))
+		return
+	}
 	if t := os.Getenv("VERIF_TIER"); t != "" && *tier == "" {
 		*tier = t
 	}
